@@ -130,6 +130,22 @@ class Response:
 SUB = HTML('<dtml-var qb1><dtml-with w mapping><dtml-call s1><dtml-let z=s2><dtml-call s3></dtml-let></dtml-with><dtml-var qa1>', subdef=1)
 SUB.cook()
 
+
+class HookedSub(HTML):
+    """sub-template whose ZDocumentTemplate_beforeRender hook is a fault point (it may also short-cut the rendering)"""
+    env = None
+
+    def ZDocumentTemplate_beforeRender(self, md, default):
+        self.env.tick()
+        return default
+
+    def ZDocumentTemplate_afterRender(self, md, result):
+        self.env.tick()
+
+
+HSUB = HookedSub('<dtml-var qb1><dtml-call s1><dtml-var qa1>', hookdef=1)
+HSUB.cook()
+
 SRC = {
     'blocks': (
         '<dtml-var pb1><dtml-with w mapping><dtml-call f1>'
@@ -157,6 +173,12 @@ SRC = {
         '<dtml-var pb2><dtml-in seq mapping><dtml-try><dtml-var sub><dtml-except>x</dtml-try><dtml-call f2></dtml-in><dtml-var pa2>'
         '<dtml-var pb3><dtml-try><dtml-var "sub(obj, _, kwx=f3())"><dtml-except>y</dtml-try><dtml-var pa3>'
         '<dtml-var pb4><dtml-try><dtml-var "sub((obj, obj), _)"><dtml-call f4><dtml-except>z</dtml-try><dtml-var pa4>'
+    ),
+    'hooks_empty_handlers': (
+        '<dtml-var pb1><dtml-try><dtml-var hsub><dtml-except></dtml-try><dtml-var pa1>'
+        '<dtml-var pb2><dtml-try><dtml-call f1><dtml-except Boom></dtml-try><dtml-var pa2>'
+        '<dtml-var pb3><dtml-with w mapping><dtml-try><dtml-call f2><dtml-var "hsub(obj, _, k=1)"><dtml-except></dtml-try><dtml-call f3></dtml-with><dtml-var pa3>'
+        '<dtml-var pb4><dtml-try><dtml-try><dtml-call f4><dtml-except></dtml-try><dtml-call f5><dtml-except><dtml-var error_type></dtml-try><dtml-var pa4>'
     ),
     'batch': (
         '<dtml-var pb1><dtml-try><dtml-in seq mapping size=2 orphan=0 prefix=p><dtml-call f1>'
@@ -203,6 +225,8 @@ def build_ns(env, tree_mode=None):
     ns['strs'] = ['a', 'b']
     ns['mixed'] = [Obj(env, v=1), 'txt', 3]
     ns['sub'] = SUB
+    HookedSub.env = env
+    ns['hsub'] = HSUB
     ns['leafdoc'] = LEAF
     ns['root'] = Node(env, 'r', [Node(env, 'a', [Node(env, 'a1'), Node(env, 'a2')]), Node(env, 'b'), Node(env, 'c', [Node(env, 'c1')])])
     ns['URL'] = 'http://h/doc'
